@@ -278,7 +278,46 @@ func c23RunDFS(arg string) explore.RunFn {
 	}
 }
 
+// c23Size: every payload length 0..90 x QoS 0/1 x {plain, with user property} published to a
+// v5 subscriber that announced Maximum Packet Size 64: every packet written to it must fit,
+// byte-exactly at the boundary (fixed header included).
+func c23Size(arg string) explore.CaseSet {
+	return explore.CaseSet{Total: 91 * 4, Run: func(i int) explore.CaseResult {
+		n, q, up := i/4, byte(i%2), (i/2)%2 == 1
+		w := world.New(nil, world.Config{})
+		defer w.End()
+		a := w.Connect(world.ConnectPacket("a", 5, true, ref.Prop{ID: ref.PMaximumPacketSize, Num: 64}))
+		p := w.Connect(world.ConnectPacket("p", 5, true))
+		a.Do(sub(1, "t", 1))
+		pk := pub("t", strings.Repeat("z", n), q, 7)
+		if up {
+			pk.Props = ref.Props{{ID: ref.PUser, Str: "k", Val: "v"}}
+		}
+		p.Do(pk)
+		a.Poll()
+		res := explore.CaseResult{Evals: 1, Counters: map[string]int64{}}
+		res.Viol = c23Check(a, c23Info{Ver: 5, MaxSize: 64})
+		delivered := false
+		for j, r := range a.Recv {
+			if r.Type == ref.PUBLISH {
+				delivered = true
+				if l := len(a.Raw[j]); l >= 62 && l <= 64 {
+					res.Counters["delivered_within_2_bytes_of_limit"]++
+				}
+			}
+		}
+		if delivered {
+			res.Counters["delivered"]++
+		} else {
+			res.Counters["withheld"]++
+			res.Nontrivial = 1
+		}
+		return res
+	}}
+}
+
 func init() {
+	explore.RegisterCases("c23size", c23Size)
 	explore.RegisterBFS("c23", c23Run)
 	explore.RegisterDFS("c23", c23RunDFS)
 	explore.Register("C23", func(c *explore.Ctx) {
@@ -290,6 +329,7 @@ func init() {
 		} else {
 			explore.RunBFS(c, "c23", "all,deep", 4, 6*time.Minute)
 		}
+		explore.RunCases(c, "c23size", "", 20*time.Second)
 		bounds := []explore.Bounds{{Preempt: 0}, {Preempt: 1}, {Preempt: 2}}
 		per := 3 * time.Second
 		scen := []string{"pingA+pubB", "pubB+takeA", "pubA2+pubB", "pubB+close", "subA+pubB", "ackA+pubB", "discA+pubB", "pubB+takeAc"}
